@@ -70,6 +70,9 @@ fn ref_le(a: &[u32], b: &[u32]) -> bool {
 
 pub struct Clocks;
 impl SubCheck for Clocks {
+    fn fuzzable(&self) -> bool {
+        true
+    }
     type Case = ClockCase;
     fn name(&self) -> &'static str {
         "vector_clock_laws"
@@ -177,6 +180,9 @@ fn shuffled<T: Clone>(v: &[T], order: &[u8]) -> Vec<T> {
 
 pub struct Maps;
 impl SubCheck for Maps {
+    fn fuzzable(&self) -> bool {
+        true
+    }
     type Case = MapCase;
     fn name(&self) -> &'static str {
         "dense_nat_map_laws"
